@@ -28,7 +28,8 @@ from pfimport import exc_enum
 from pipefunc.map._storage_array._base import storage_registry
 
 PID = "C07"
-PROPS = ["PfModel.Props.C07", "PfModel.Props.C07Ext", "PfModel.Props.C07Geom", "PfModel.Props.C07Conc"]
+PROPS = ["PfModel.Props.C07", "PfModel.Props.C07Ext", "PfModel.Props.C07Geom", "PfModel.Props.C07Conc", "PfModel.Props.C07Sess",
+         "PfModel.Props.C07Keys"]
 DRIVER = "C07"
 RULE = ("a case is one geometry (external/internal sizes 1..3, total rank <= 3, any of the 2^rank masks) and one operation "
         "sequence run on every sampled backend; corpus first, then (a) per small geometry an exhaustive sweep of all key tuples over "
@@ -37,7 +38,8 @@ RULE = ("a case is one geometry (external/internal sizes 1..3, total rank <= 3, 
         "step 0, out-of-range linear indices), (d) constructor arguments (well-formed or not) and the runner's `_init_arrays` call "
         "against `PF.St.construct` / `initArrays`, (e) the registry and the class flags the runner reads against `PF.St.registry`, "
         "(f) several processes dumping into one FileArray folder (distinct cells / same cell / one writer killed) with a concurrent "
-        "reader. Non-trivial: at least one successful dump followed by a read. Distinct by JSON digest.")
+        "reader, (g) sessions on one run folder: operation sequences with `persist()` and re-opening (a new object on the folder) as "
+        "SEPARATE steps in any order, re-opening without a persist included, against `PF.St.dsStep` / `fsStep` (C07_sess_*). Non-trivial: at least one successful dump followed by a read. Distinct by JSON digest.")
 ASSUMPTIONS = [
     "NumPy is trusted for: element[I] = row-major position of I, .flat/reshape row-major, assignment through tuple indices",
     "cloudpickle round-trips the stored atoms and object arrays (persist/reopen, FileArray files, the Manager of SharedMemoryDictArray)",
@@ -51,6 +53,9 @@ ASSUMPTIONS = [
     "observes this on the local file system only (no NFS), with a reader polling while 2-4 forked writers dump",
     "constructor arguments are modelled for non-negative sizes only; geometries that the constructors accept although they are "
     "not well formed (C07_construct_accepts_non_wf) are outside the property's quantifier and are only counted",
+    "sessions: re-opening = constructing a new object of the same class on the same folder in the same process (the old object is "
+    "dropped); a history in which something was dumped after the last persist() and then re-opened is outside the property's "
+    "'persist-then-reopen' (C07_sess_unpersisted_witness): there each class is compared with its own session model only",
     "zarr-backed classes are not importable here and are not covered (registry ids starting with 'zarr' are skipped explicitly)",
 ]
 
@@ -227,7 +232,8 @@ def new_array(backend, folder, g):
 
 
 def model_op(op):
-    """the op as the Lean driver reads it (bare keys are wrapped, like normalize_key does)"""
+    """the op as the NumPy REFERENCE reads it (a bare key indexes like the 1-tuple of it).  The Lean driver gets the op as it is:
+    wrapping a bare key is `PF.St.RawKey.wrap` (round 9; it was done here before)."""
     if op[0] == "get_bare":
         return ["get", [op[1]]]
     if op[0] == "dump_bare":
@@ -268,6 +274,13 @@ def run_impl(backend, g, ops, folder):
             out.append(observe("has", lambda: arr.has_index(op[1]), internal))
         elif t == "at":
             out.append(observe("at", lambda: arr.get_from_index(op[1]), internal))
+        elif t == "persist":
+            out.append(observe("persist_reopen", lambda: arr.persist(), internal))
+        elif t == "reopen":
+            def ro():
+                nonlocal arr
+                arr = new_array(backend, folder, g)
+            out.append(observe("persist_reopen", ro, internal))
         elif t == "persist_reopen":
             def pr():
                 nonlocal arr
@@ -357,8 +370,8 @@ class Ref:
                 return {"err": "IndexError"}
             ids = self.elems.get(op[1])
             return {"err": "Missing"} if ids is None else {"v": ids if self.internal else ids[0]}
-        if t == "persist_reopen":
-            return "ok"
+        if t in ("persist_reopen", "persist", "reopen"):
+            return "ok"      # the reference is a durable masked array: saving it and looking at it again change nothing
         raise AssertionError(op)
 
 
@@ -647,7 +660,7 @@ def check_cases(ctx, cases, base, label):
     else:
         results = [_eval_job(j) for j in jobs]
     for (case, _, _, _), (impl, robs) in zip(jobs, results):
-        reqs.append({"m": "storage.run", "a": {"geom": case["geom"], "ops": [model_op(o) for o in case["ops"]]}})
+        reqs.append({"m": "storage.run", "a": {"geom": case["geom"], "ops": case["ops"]}})
         kept.append((case, impl, robs))
     outs = ctx.lean(reqs)
     shrink_counter = [0]
@@ -736,6 +749,7 @@ def run(ctx):
         import time
         import c07_geom
         import c07_conc
+        import c07_sess
         t = [time.monotonic()]
 
         def lap(name):
@@ -751,6 +765,7 @@ def run(ctx):
         # the extension streams share one batch of Lean requests (a driver start costs 1-4 s)
         parts = [(c07_geom.prepare_registry, c07_geom.finish_registry, "registry"),
                  (c07_geom.prepare_construct, c07_geom.finish_construct, "construct"),
+                 (c07_sess.prepare, c07_sess.finish, "session"),
                  (c07_conc.prepare, c07_conc.finish, "conc")]
         prepared = [p(ctx) for p, _, _ in parts]
         outs = ctx.lean([r for reqs, _ in prepared for r in reqs])
@@ -772,13 +787,16 @@ def replay(ctx, case):
         if case.get("stream") in ("construct", "init_arrays", "registry", "update_array"):
             import c07_geom
             return c07_geom.replay(ctx, case, base)
+        if case.get("stream") == "session":
+            import c07_sess
+            return c07_sess.replay(ctx, case, base)
         if case.get("stream") == "conc":
             import c07_conc
             return c07_conc.replay(ctx, case, base)
         case = {"geom": case["geom"], "ops": case["ops"]}
         backends = [b for b in sorted(storage_registry) if b in MODEL_OF]
         impl, robs = evaluate(case, base, "replay", backends)
-        model = ctx.lean([{"m": "storage.run", "a": {"geom": case["geom"], "ops": [model_op(o) for o in case["ops"]]}}])[0]["r"]
+        model = ctx.lean([{"m": "storage.run", "a": {"geom": case["geom"], "ops": case["ops"]}}])[0]["r"]
         for i, op in enumerate(case["ops"]):
             print(f"op {i}: {op}")
             print("   reference (NumPy masked array):", robs[i])
